@@ -389,6 +389,15 @@ func keyByKind(kind string) (crypto.Signer, crypto.PublicKey) {
 		seed := sha256.Sum256([]byte("verif-ed"))
 		k := ed25519.NewKeyFromSeed(seed[:])
 		return k, k.Public()
+	case "ed31", "ed33", "ed0": // an ed25519.PublicKey value of the wrong length
+		n, _ := strconv.Atoi(kind[2:])
+		seed := sha256.Sum256([]byte("verif-ed"))
+		k := ed25519.NewKeyFromSeed(seed[:])
+		pub := append([]byte{}, k.Public().(ed25519.PublicKey)...)
+		for len(pub) < n {
+			pub = append(pub, 7)
+		}
+		return k, ed25519.PublicKey(pub[:n])
 	case "foreign":
 		return foreignSigner{}, "not a key"
 	}
